@@ -38,7 +38,7 @@ CLAIMED["C03"] = ("proof", DATA_NOTE + "C03: membership iff for times / lead tim
     "strictly ascending dimensions, -obsrange masking, empty selection never numeric. The specification says a range option constrains only when GIVEN (C03_latrange_alone_selects_by_latitude_only, _lonrange_) and that -d keeps exactly the times on the requested UTC days for EVERY unix time, also before 1970 (C03_date_option_selects_whole_utc_days); both had been copied from the code and were rewritten from the property text (two defects fixed). Pools include longitudes in 0..360 and times before 1970; 13 option sets are also run through the real command line and compared with the rows of -type csv.", "7 C03", "Coq proof over hand model + correspondence check")
 CLAIMED["C04"] = ("proof", DATA_NOTE + "C04: get_scores delivers numbers only or the single NaN, kept positions valid in every requested field, "
     "missing anywhere => missing everywhere, non-finite anomaly missing; missing-vs-deleted metamorphic relation, reader encodings and "
-    "all-missing slices for a metric sample checked on the implementation, also when the same Data object is asked a second time (cached answer) with every kind of aggregator. The token rule of the text reader (Text._clean) is GENERATED from /repo (Gen_io.text_cell) with theorems over the extended reals: a token that is no number, NaN or the NUMBER -999 in any spelling is missing, every other number is kept, the placeholder is never delivered; tied to Text._clean on 47 tokens per run.", "7 C04", "Coq proof over hand model + correspondence check")
+    "all-missing slices for a metric sample checked on the implementation, also when the same Data object is asked a second time (cached answer) with every kind of aggregator. The token rule of the text reader (Text._clean) is GENERATED from /repo (Gen_io.text_cell) with theorems over the extended reals: a token that is no number, NaN or the NUMBER -999 in any spelling is missing, every other number is kept, the placeholder is never delivered; tied to Text._clean on 47 tokens per run. Whole-array requests (no axis): a case missing in one requested field is missing in every returned array; a missing token in the date / unixtime column drops the row.", "7 C04", "Coq proof over hand model + correspondence check")
 CLAIMED["C14"] = ("proof", DATA_NOTE + "C14: obs/fcst become value (-|/) climatology cell by cell, other fields untouched, missing climatology or "
     "non-finite quotient drops the case for every input, climatology looked up by coordinates and never counted as an input; "
     "-c X versus X as extra input compared on the implementation; six -c / -C combinations (also through --config; the LAST climatology option decides file and operation) through the real command line against hand-computed anomalies; name and legend lists for climatologies sharing a file name with a verified input.", "7 C14", "Coq proof over hand model + correspondence check")
@@ -70,12 +70,12 @@ CLAIMED["C08"] = ("proof", TRANS_NOTE + "C08: event probability from the CDF for
     "complement symmetry, every probability in [0,1] lies in exactly one of the 10 bins (exact double edges, top edge 1.001), ensemble-derived "
     "probability = fraction of present members (in [0,1], missing members ignored, all missing => NaN), pinball terms non-negative. The "
     "binned reliability/resolution terms are generated per bin + hand glue (Model/Brier.v) and validated on floats; the Murphy "
-    "decomposition is PROVED per bin (C08_murphy_identity_per_bin: for forecasts equal to the bin value, sum (p-o)^2 = n(p-mean)^2 - n(mean-obar)^2 + sum (obar-o)^2, any number of cases) and the whole-score identity BS = REL - RES + UNC is checked on every run on inputs whose forecasts are the bin centres. Added: QuantileCoverage translated (three branches); theorems pin the lower/upper inclusion flag to its own end of the interval; falsifier for metrics that write into the arrays cached in the dataset. Theorem on the regenerated get_p: a missing observation has a missing event indicator (never \"occurred\"), a present one 0 or 1; every probabilistic metric is NaN on a day without observations (real Data). Quantile-based scores (Spread, SpreadSkillRatio, QuantileScore, QuantileCoverage) through the real Data against the definitions on the file's quantile columns over the jointly valid cases, with stored levels that differ from the requested ones by rounding only (single-precision coordinate, computed level) and an ensemble present.", "7 C08", "Coq proof over translated source + translation validation")
+    "decomposition is PROVED per bin (C08_murphy_identity_per_bin: for forecasts equal to the bin value, sum (p-o)^2 = n(p-mean)^2 - n(mean-obar)^2 + sum (obar-o)^2, any number of cases) and the whole-score identity BS = REL - RES + UNC is checked on every run on inputs whose forecasts are the bin centres. Added: QuantileCoverage translated (three branches); theorems pin the lower/upper inclusion flag to its own end of the interval; falsifier for metrics that write into the arrays cached in the dataset. Theorem on the regenerated get_p: a missing observation has a missing event indicator (never \"occurred\"), a present one 0 or 1; every probabilistic metric is NaN on a day without observations (real Data). Quantile-based scores (Spread, SpreadSkillRatio, QuantileScore, QuantileCoverage) through the real Data against the definitions on the file's quantile columns over the jointly valid cases, with stored levels that differ from the requested ones by rounding only (single-precision coordinate, computed level) and an ensemble present. PIT at a discrete probability mass (x0 / x1): drawn from [0, pit] / [pit, 1] exactly where the observation equals the bound, the stored value elsewhere. Murphy decomposition proved over ANY grouping of the cases into groups sharing a forecast value (C08_murphy_decomposition_over_any_grouping).", "7 C08", "Coq proof over translated source + translation validation")
 CLAIMED["C15"] = ("proof", TRANS_NOTE + "C15: every generated aggregator is its statistic (mean, sum, meanabs != absmean, count, min, max, range, change, "
     "abschange, variance, std, iqr, quantile with level in [0,1]); -T: hand model Model/Window.v of preaggregate_leadtime/_time with the "
     "theorem that for every strictly increasing grid the aggregated positions are exactly the trailing window (l-h, l] (irregular spacing, "
     "any window length), same function for obs/fcst/members; REFUTED for unsorted grids (known finding); model tied over Q for 12 aggregators; "
-    "aggregation along every axis of arrays up to 4-D and ensemble pre-aggregation checked on the implementation. Falsifier enumerates every aggregator along every axis of 1-4-D arrays.", "7 C15",
+    "aggregation along every axis of arrays up to 4-D and ensemble pre-aggregation checked on the implementation. Falsifier enumerates every aggregator along every axis of 1-4-D arrays; every aggregator is also compared with an independent statistic on vectors incl. equal non-representable values and small spreads on large offsets; the ensemble pre-aggregation runs on TWO inputs whose files share a base name; a NaN quantile level is rejected (theorem on the regenerated guard).", "7 C15",
     "Coq proof over translated source + hand model with correspondence check")
 CLAIMED["C13"] = ("proof", "Option tables GENERATED from driver.run's AST on every run (boolean chain, valued chain with parser kind, Data(...) "
     "keywords, pl.<attr> block, validations); theorems: every documented data-selection flag reaches its documented constructor "
@@ -84,13 +84,13 @@ CLAIMED["C13"] = ("proof", "Option tables GENERATED from driver.run's AST on eve
     "distinct variables, files keeping their order), --config tokens are appended, unknown flag / missing value / missing config name / "
     "range arity are rejected; vector syntax: a:s:b has k+1 elements ending exactly at b when hit (over Q, unbounded k). Ties: "
     "Model/ParseNumbers.v vs util.parse_numbers on a grid of strings incl. combinations and date ranges; Model/Cli.v composed with "
-    "Model/Data.v vs `verif ... --list-times --list-locations` on generated text files, random option subsets/orders/--config. Added: two --config files one after the other (theorem + tie), --list-dates for times that are not on the hour (model date_clock, theorem C13_list_dates_clock for every unix time, tied to the printed lines). -agg: every documented aggregator name and the numbers 0..1 (incl. 0 and 1) give the documented statistic per slice for standard metrics AND the aggregating special output obsfcst, wherever the option stands; unknown names are rejected for special outputs too.",
+    "Model/Data.v vs `verif ... --list-times --list-locations` on generated text files, random option subsets/orders/--config. Added: two --config files one after the other (theorem + tie), --list-dates for times that are not on the hour (model date_clock, theorem C13_list_dates_clock for every unix time, tied to the printed lines). -agg: every documented aggregator name and the numbers 0..1 (incl. 0 and 1) give the documented statistic per slice for standard metrics AND the aggregating special output obsfcst, wherever the option stands; unknown names are rejected for special outputs too. -obs / -fcst: any column (case sensitive, negative thresholds) takes the role, independently of the other; -x decides the rows whatever -Tx says (also through --config); malformed vectors made of legal characters (1..2, 1-2, -), fractional date steps (checked under an alarm: the pinned code never returned), empty ranges, -agg nan, -T 1.5, -dpi abc, an empty argument must all end in the error message.",
     "7 C13", "Coq proof over translated option tables + hand model with correspondence check")
 CLAIMED["C12"] = ("proof", "Hand model Model/Table.v of Standard._get_x_y and the text/csv writers with axiom-free theorems for any number of inputs and "
     "slices: one row per slice in axis order, one column per input in command-line order, each cell is that input's score on that "
     "slice, -acc cells are prefix sums with missing scores counted as 0. Tie: the model composed with Model/Data.v (mae/bias over Q) "
     "against the parsed csv/text output of the real command line on generated files for all 13 axes, -acc, -leg, -f; descriptors, "
-    "threshold rows and the 6/4 significant digits checked numerically (PARTIAL: %g formatting itself is library behaviour). Added: cells for several thresholds on a data axis are the average over the intervals; row labels of aggregated time axes (year/month/week/day).",
+    "threshold rows and the 6/4 significant digits checked numerically (PARTIAL: %g formatting itself is library behaviour). Added: cells for several thresholds on a data axis are the average over the intervals; row labels of aggregated time axes (year/month/week/day); header names against the columns they head for -leg with a climatology and for obsfcst with several quantiles and files (matched by name); leading fields of stations with 7-digit ids and 8-digit coordinates.",
     "7 C12", "Coq proof over hand model + correspondence check")
 CLAIMED["C09"] = ("proof", "Hand model Model/TextParse.v of verif.input.Text on lexed lines with axiom-free theorems for files of any size: the "
     "dimensions are exactly the coordinates occurring in the rows (ascending, no duplicates); every cube cell is the value of the row "
@@ -116,7 +116,7 @@ CLAIMED["C20"] = ("proof", "Hand-written executable model (coq/Model/Scripts.v, 
     "the observation is missing; an observation is placed exactly where the valid time matches (first matching source case) and nowhere "
     "else. PARTIAL: NetCDF/scipy I/O and float32 storage are outside the model. The tie runs the real scripts on generated text and NetCDF "
     "files every run, reads every written variable back with netCDF4 and compares with the model (vm_compute) and an independent oracle; "
-    "times, lead times, location metadata and untouched fields must be preserved. Generators include lead times that are not whole hours and thresholds/levels in arbitrary order.",
+    "times, lead times, location metadata and untouched fields must be preserved. Generators include lead times that are not whole hours (all three scripts), runs before 1970 and after 2038, thresholds/levels in arbitrary order, and accumulate on series of realistic length (240 lead times x 30 times: scipy switches convolution method there) where exactly the windows containing a missing value must be missing.",
     "7 C20", "Coq proof over a hand-written model + script-level correspondence check (partial)")
 CLAIMED["C19"] = ("proof", "PARTIAL. GENERATED from /repo on every run (Gen/Gen_caps.v): the capability attributes of every metric and output class "
     "(resolved along inheritance), the -m name -> Output class chain, the three statements of driver.run that drop an unsupported -x and "
@@ -138,11 +138,11 @@ CLAIMED["C17"] = ("proof", "PARTIAL. The chain command line -> driver variable -
     "attribute are runtime behaviour: every run executes verif.driver.run on random option subsets (standard plots with 2-3 inputs, a "
     "diagram with one sub-axes per input, maps), intercepts savefig, and compares, for each option present, the value the MODEL says "
     "reaches the figure with what the figure shows (texts, limits, ticks, rotations, scales, legend, line styles, font sizes, grid, "
-    "margins, size, dpi, file signature by extension).",
+    "margins incl. 0 and 1, size, dpi, file signature by extension; -gc in every documented spelling incl. [r,g,b]; annotation fields of -af against the location metadata; colour bar label size on maps).",
     "7 C17", "Coq proof over translated option tables + argument-loop model; figure read-back correspondence check (partial)")
 CLAIMED["C16"] = ("proof", "PARTIAL. Hand-written executable models (coq/Model/Diagrams.v, any NumOps instance) of the defining statistics of "
     "-hist, -sort, obsfcst (lines and shaded bands), qq, scatter points, change, cond, reliability, discrimination, roc, pithist, "
-    "spreadskill (spread = highest minus lowest requested quantile, whatever the order of -q), freq, marginal, error, taylor, performance, economicvalue and timeseries, built on the GENERATED interval and contingency code. Theorems (XR, all strictly increasing edges, all "
+    "spreadskill (spread = highest minus lowest requested quantile, whatever the order of -q), freq, marginal, error, taylor, performance, economicvalue, droc/droc0, murphy, invreliability, igncontrib, autocorr/autocov, bsdecomp and timeseries (26 kinds), built on the GENERATED interval and contingency code. Theorems (XR, all strictly increasing edges, all "
     "values): the np.histogram rule (last bin closed; pithist, reliability, discrimination) and the change rule (first bin closed) put "
     "every value of the closed edge range in exactly one bin; plain half-open bins partition [first,last) and lose the top edge, "
     "(e_i,e_i+1] bins partition (first,last] and lose the bottom edge (the rules the code had before three fix: commits); the obsfcst "
@@ -150,8 +150,8 @@ CLAIMED["C16"] = ("proof", "PARTIAL. Hand-written executable models (coq/Model/D
     "run executes verif.driver.run on generated 2-3 input files with independent missing cells, reads Line2D data, bar heights and "
     "polygons back from the figure handed to savefig and compares them with the model (vm_compute, float instance) on the arrays the real "
     "Data object returns; one series per input in command-line order is checked; standard line plots are compared with the -type csv "
-    "table of the same command (C12), with -acc against the running sum. NOT modelled: droc, murphy, bsdecomp, igncontrib, fss, "
-    "autocorr/autocov, against, invreliability, meteo, maps, rank/impact views, scatter quantile lines.",
+    "table of the same command (C12), with -acc against the running sum. at every probability threshold of the Murphy diagram each case is in exactly one of the three classes (C16_murphy_classes_partition_the_cases). The rank view is checked by its invariant (the stacked shares at every rank position add up to 1 over the slices where every input has a score). NOT modelled: fss, "
+    "against, meteo, maps, impact views, scatter quantile lines.",
     "7 C16", "Coq proof over hand-written diagram models + figure read-back correspondence check (partial)")
 PENDING = {}
 
